@@ -5,7 +5,14 @@ import (
 	"verif/vlib"
 
 	_ "verif/checks/chains"
+	_ "verif/checks/arrays"
 	_ "verif/checks/convert"
+	_ "verif/checks/esccmd"
+	_ "verif/checks/escinv"
+	_ "verif/checks/format"
+	_ "verif/checks/lists"
+	_ "verif/checks/quotes"
+	_ "verif/checks/varargs"
 	_ "verif/checks/exprs"
 	_ "verif/checks/flags"
 	_ "verif/checks/flow"
